@@ -27,6 +27,33 @@ fn main() {
         vharness::checks::c18::child_main(pool, thorough);
         exit(0);
     }
+    if id == "C17" && args.get(2).map(|s| s.as_str()) == Some("--gen-corpus") {
+        use vharness::mutate;
+        let root = std::path::Path::new(vharness::runner::VERIF_ROOT).join("corpus");
+        for (i, b) in mutate::bases().iter().enumerate() {
+            let d = root.join("raw_proof");
+            std::fs::create_dir_all(&d).unwrap();
+            std::fs::write(d.join(format!("proof-{i}")), &b.proof_bytes).unwrap();
+            let d = root.join("raw_compressed");
+            std::fs::create_dir_all(&d).unwrap();
+            let mut v = vec![i as u8];
+            v.extend_from_slice(&b.compressed);
+            std::fs::write(d.join(format!("compressed-{i}")), &v).unwrap();
+        }
+        let d = root.join("decoders");
+        std::fs::create_dir_all(&d).unwrap();
+        // a few script seeds: one edit of each kind per target
+        let mut n = 0;
+        for target in 0u8..5 {
+            for kind in 0u8..8 {
+                let seed = [target, kind % 3, 0, kind, 7, 3, 1, 0, 0, 0, 0, 0, 0, 0, 0, 0];
+                std::fs::write(d.join(format!("seed-{n:03}")), seed).unwrap();
+                n += 1;
+            }
+        }
+        println!("corpus written");
+        exit(0);
+    }
     let mut i = 2;
     while i < args.len() {
         match args[i].as_str() {
@@ -85,6 +112,21 @@ fn main() {
         let v: serde_json::Value = match serde_json::from_slice(&bytes) {
             Ok(v) => v,
             Err(e) => {
+                if id == "C17" {
+                    // a raw fuzzer input from corpus/
+                    match vharness::checks::c17::replay_corpus_file(std::path::Path::new(&path)) {
+                        Ok(()) => {
+                            println!("replay {path}: property held");
+                            exit(0);
+                        }
+                        Err(f) => {
+                            println!("VIOLATION property={id} replay={path}");
+                            println!("  signature: {}", f.sig);
+                            println!("  message: {}", f.msg);
+                            exit(1);
+                        }
+                    }
+                }
                 eprintln!("cannot parse {path}: {e}");
                 exit(2)
             }
